@@ -440,14 +440,27 @@ func decodeCond(cond ssa.Value, v ssa.Value, depth int) (Cond, bool) {
 		switch x.Op {
 		case token.EQL, token.NEQ, token.LSS, token.LEQ, token.GTR, token.GEQ:
 			if sameOrUnwrapped(x.X, v) {
-				return Cond{Val: v, Op: x.Op, Other: x.Y}, true
+				return boolConstCond(Cond{Val: v, Op: x.Op, Other: x.Y}), true
 			}
 			if sameOrUnwrapped(x.Y, v) {
-				return Cond{Val: v, Op: flip(x.Op), Other: x.X}, true
+				return boolConstCond(Cond{Val: v, Op: flip(x.Op), Other: x.X}), true
 			}
 		}
 	}
 	return Cond{}, false
+}
+
+// boolConstCond normalises `b == false`, `b != true` ... to a (negated) boolean test of b.
+func boolConstCond(c Cond) Cond {
+	k, ok := c.Other.(*ssa.Const)
+	if !ok || k.Value == nil || k.Value.Kind() != constant.Bool || (c.Op != token.EQL && c.Op != token.NEQ) {
+		return c
+	}
+	neg := !constant.BoolVal(k.Value)
+	if c.Op == token.NEQ {
+		neg = !neg
+	}
+	return Cond{Val: c.Val, Op: token.EQL, Neg: neg}
 }
 
 func sameOrUnwrapped(a, v ssa.Value) bool {
